@@ -538,6 +538,28 @@ pub fn run(ctx: &Ctx) {
             judge_paths(&[p], &what, json!({"what": what}), loc);
         }).chunk(1));
     }
+    // attributes on the root element (the generated documents give it only namespace declarations)
+    {
+        let base = docs.iter().find(|d| d.name == "generated/default").map(|d| d.doc.clone()).unwrap_or_default();
+        let names = ["VERSION", "fx:VERSION", "ho:VERSION", "xsi:schemaLocation", "ID"];
+        let values = ["4", "3.1.0", "4.1", "", "3.x", "1.2.3.4", ".", "..", "4.", ".1", "-1", "18446744073709551616", "\u{FF14}.1", "3.1.0 ", "v4"];
+        let sp = Space::new(&[names.len(), values.len()]);
+        let s2 = sp.clone();
+        let base = &base;
+        ctx.run_family(Family::new("c12.root_attributes", sp.size(), format!("the generated document with one further attribute on the root element: names {:?} x values {:?}", names, values), move |i, loc| {
+            let c = s2.coords(i);
+            let at = base.windows(9).position(|w| w == b"<fx:FIBEX").map(|p| p + 9).unwrap_or(0);
+            let mut d = base[..at].to_vec();
+            d.extend_from_slice(format!(" {}=\"{}\"", names[c[0]], values[c[1]]).as_bytes());
+            d.extend_from_slice(&base[at..]);
+            let dir = thread_dir();
+            let p = format!("{}/root.xml", dir);
+            std::fs::write(&p, &d).expect("write");
+            let what = format!("generated document whose root element carries {}=\"{}\"", names[c[0]], values[c[1]]);
+            loc.state(i + 12_000_000, true);
+            judge_paths(&[p], &what, json!({"what": what}), loc);
+        }));
+    }
     // many complete elements: loading time must stay proportionate (a load that re-reads the file or
     // re-scans a table per element takes minutes where a healthy one takes a fraction of a second)
     {
